@@ -22,12 +22,13 @@ from props.c08_exn import EXN
 from props import c08_s3fake
 from props.c08_putchild import make_chunk
 
-RULE = ('(1) exhaustive: the 103 exception classes of the model enum (names, direct bases, full isinstance matrix) '
+RULE = ('(1) exhaustive: the 104 exception classes of the model enum (names, direct bases, full isinstance matrix) '
         'and, for each of the four error maps, every class raised inside the guarded block of a real store, through '
         'get_chunk / get_chunk_or_default / get_chunk_or_placeholder; (2) every truncation offset (quick: all header '
         'offsets plus a sample of body offsets) of chunk files written by the real NPY store (plain and direct_write) '
         'and of objects served by a loopback HTTP server with the full Content-Length, for several dtypes/shapes, plus '
-        'a few non-prefix corruptions; (2b) the S3 read as ONE HTTP response = (bytes the server holds under the key: the '
+        'non-prefix corruptions (zip signatures, bad magic / version / header length, header texts the tokenizer rejects, '
+        'trailing garbage; NPY files and S3 objects); (2b) the S3 read as ONE HTTP response = (bytes the server holds under the key: the '
         'object truncated IN THE STORE at byte k, Content-Length it announces: honest k / whole object / none / any other '
         'number, bytes it delivers): every k of a 140-byte object with the honest Content-Length, header-boundary / last-byte '
         '/ random k for three more geometries, transfers cut in flight, no Content-Length, and random (held, delivered, '
@@ -74,6 +75,9 @@ ASSUMPTIONS = ['S3 responses: the loopback server sends exactly the planned byte
                'after the model run of a limited put has ended (error raised) the real code may issue further FAILING '
                'write calls (BufferedWriter flushing again on close): accepted, they have no effect',
                'header text parser of the executable model handles the canonical header numpy writes for simple dtypes',
+               'a chunk file that starts with a zip signature is taken NOT to be a well-formed zip archive (np.load then raises '
+               'BadZipFile, which is what the model raises for every zip-signature file); a well-formed archive under a chunk '
+               'name is the open finding C08-F5h (NpzFile object -> AttributeError outside the guarded block), run as a witness only',
                'part 5b: stored values are small integers (exact products), vis never 0 so that a zero means zero-filled; when '
                'several chunks make a load fail any one of their exceptions is accepted (scheduler order is not modelled)']
 
@@ -416,6 +420,7 @@ def part_npy_truncation(ctx, tmp):
             'minor_1': full[:7] + b'\x01' + full[8:], 'hlen_huge': full[:8] + b'\xff\xff' + full[10:],
             'hlen_short': full[:8] + b'\x10\x00' + full[10:], 'trailing_garbage': full + b'abc',
             'version_2_len16': full[:6] + b'\x02\x00' + full[8:], 'pickle_like': b'\x80\x04' + full[2:]}
+    muts.update(header_text_mutations(full))
     for nm, data in sorted(muts.items()):
         with open(fn, 'wb') as f:
             f.write(data)
@@ -437,6 +442,27 @@ def part_npy_truncation(ctx, tmp):
     with open(fn, 'wb') as f:
         f.write(full)
     return files
+
+
+def header_text_mutations(full):
+    """Chunk files / objects whose header TEXT is damaged (framing intact, same length): numpy parses it with
+    ast.literal_eval, falls back to tokenize for Python-2 style headers, and raises ValueError or tokenize.TokenError."""
+    nb = 2 if full[6] == 1 else 4
+    hlen = int.from_bytes(full[8:8 + nb], 'little')
+    h0, h1 = 8 + nb, 8 + nb + hlen
+    text = full[h0:h1]
+    out = {}
+    for nm, t in (('header_unterminated_string', text.replace(b"), }", b"), '''}")),      # TokenError: EOF in multi-line string
+                  ('header_open_bracket', text.replace(b"), }", b"),   ")),               # TokenError: EOF in multi-line statement
+                  ('header_nul_bytes', b'\x00' * len(text)),                                # TokenError: null bytes
+                  ('header_bad_literal', text.replace(b"False", b"0x   ")),                # TokenError: invalid hexadecimal literal
+                  ('header_not_a_dict', b'[' + text[1:].replace(b"}", b"]")),              # ValueError
+                  ('header_unknown_key', text.replace(b"'shape'", b"'shapf'"))):           # ValueError
+        if len(t) != len(text):
+            t = (t + b' ' * len(text))[:len(text) - 1] + b'\n'
+        if t != text:
+            out[nm] = full[:h0] + t + full[h1:]
+    return out
 
 
 def is_notfound(i):
@@ -497,14 +523,16 @@ def part_s3(ctx, files):
                               sample=dict(case, outcome=[show(o) for o in obs]) if k == 10 and gi == 0 else None)
                 ctx.count('s3_truncation_offsets')
             srv.plan(path, None)
-        # corrupted (non-prefix) objects: raw ValueError escapes the S3 map (model: not caught)
+        # corrupted (non-prefix) objects: ValueError / TokenError of read_array -> BadChunk (repaired finding C08-F5d)
         dt, shape = GEOMS_QUICK[0]
         x = make_chunk(dt, shape, 3)
         sl = tuple(slice(0, n) for n in shape)
         hdr, body = npy_header_and_body(x)
         full = bytes(hdr) + body.tobytes()
         path = '/' + store.chunk_metadata('bkt/arr0', sl)[0] + '.npy'
-        for nm, data in (('bad_magic', b'\x93NUMPX' + full[6:]), ('version_3', full[:6] + b'\x03\x00' + full[8:])):
+        for nm, data in ([('bad_magic', b'\x93NUMPX' + full[6:]), ('version_3', full[:6] + b'\x03\x00' + full[8:]),
+                          ('zip_signature', b'PK\x03\x04' + full[4:]), ('hlen_huge', full[:8] + b'\xff\xff' + full[10:]),
+                          ('pickle_like', b'\x80\x04' + full[2:])] + sorted(header_text_mutations(full).items())):
             srv.put(path, data)
             exp1 = ctx.model([[81, [6, list(data), want_of(dt, shape)]]])[0]
             obs = three(store, 'bkt/arr0', sl, x.dtype, x)
@@ -680,7 +708,7 @@ def part_s3_response(ctx, only=None):
 PUT_2XX = [200, 201, 204]
 PUT_4XX = [400, 401, 403, 404, 405, 409, 411, 412, 413, 416, 429, 451, 499]
 PUT_5XX = [500, 501, 502, 503, 504, 505, 506, 507, 508, 510, 511, 599]
-PUT_3XX = [301, 307]        # a redirect without a Location header: nothing for requests to follow (finding C08-F5g)
+PUT_3XX = [301, 307]        # a redirect without a Location header: nothing for requests to follow (finding C08-F5g, repaired)
 SIG_3XX = 'store=s3;fault=put_answered_3xx;symptom=failure_swallowed'
 
 
@@ -760,7 +788,7 @@ def put_spec(ctx, sig, case, op, obs, answered, stored_ok, what):
     """The property on the observation alone: every attempt was answered with an error status => an error is reported
     (raised by put_chunk / mark_complete, returned by put_chunk_noraise) and it is a ChunkStoreError; success reported
     => the object is in the store, complete."""
-    refused = bool(answered) and all(400 <= s < 600 for s in answered)
+    refused = bool(answered) and all(300 <= s < 600 for s in answered)
     if obs[0] == 'ok' and not stored_ok and answered and 300 <= answered[-1] < 400:
         ctx.disagree(SIG_3XX, case, show_put(obs), 'an error (answered %s)' % answered,
                      '%s reported success although the server answered with a redirect status and stored nothing' % what)
@@ -972,8 +1000,10 @@ def model_or_spec(ctx, case):
                     return bad
                 flags.append(0)
             elif lo[1] in (IDX['B_FileNotFoundError'], IDX['B_EOFError'], IDX['B_ValueError'], IDX['U_MaxRetryError'],
-                           IDX['K_S3ObjectNotFound'], IDX['B_IsADirectoryError']):
+                           IDX['K_S3ObjectNotFound']):
                 flags.append(1)
+            elif lo[1] == IDX['B_IsADirectoryError']:
+                return [1, IDX['K_StoreUnavailable']]
             else:
                 return [1, lo[1]]
         return [0, flags, int(any(flags))]
@@ -2463,6 +2493,34 @@ def run_witness(ctx, w, tmp):
     elif kind == 'short_write':
         if ctx.model_ok:
             part_short_write(ctx, tmp)
+    elif kind == 'npy_valid_zip':
+        # open finding C08-F5h: a WELL-FORMED zip archive under a chunk name (outside the model, which reads every
+        # zip-signature file as BadZipFile): np.load returns an NpzFile, get_chunk raises AttributeError
+        import io
+        import zipfile
+        d = tmp + '/w_' + kind
+        os.makedirs(d + '/a', exist_ok=True)
+        store = NpyFileChunkStore(d)
+        x = make_chunk('u1', (3, 4), 3)
+        sl = (slice(0, 3), slice(0, 4))
+        store.put_chunk('a', sl, x)
+        fn = d + '/a/00000_00000.npy'
+        full = open(fn, 'rb').read()
+        buf = io.BytesIO()
+        with zipfile.ZipFile(buf, 'w') as z:
+            z.writestr('arr_0.npy', full)
+        for nm, data in (('npz_archive', buf.getvalue()), ('empty_archive', b'PK\x05\x06' + bytes(18))):
+            with open(fn, 'wb') as f:
+                f.write(data)
+            obs = three(store, 'a', sl, x.dtype, x)
+            case = dict(part='npy_corruption', kind=nm)
+            ctx.traces_validated += 1
+            for msg in spec_three(obs):
+                ctx.disagree('part=npy_corruption;kind=%s;spec' % nm, case, [show(o) for o in obs], None, msg)
+            if obs[0][0] == 1 and not is_chunkstore_error(obs[0][1]):
+                ctx.disagree('store=npy;fault=wellformed_zip_archive;symptom=raw_exception', case, show(obs[0]), 'a ChunkStoreError',
+                             'a well-formed zip archive under a chunk name surfaces as a raw (non chunk-store) exception')
+            ctx.note_case(('witness', kind, nm), nontrivial=True)
     elif kind in ('npy_zip', 'npy_eisdir'):
         d = tmp + '/w_' + kind
         os.makedirs(d + '/a', exist_ok=True)
